@@ -75,17 +75,17 @@ func winVal(k int, l int, bits uint) uint32 {
 // Variant writes variant j of seed s into a fresh slice and a short label.
 func (n *Neighbourhood) Variant(s []byte, j int64) (out []byte, dev int) {
 	if j == 0 {
-		return append([]byte(nil), s...), 0
+		return exact(s), 0
 	}
 	j--
 	pre, sub, w16, w32, _ := n.counts(len(s))
 	if j < int64(pre) {
-		return append([]byte(nil), s[:j]...), 1
+		return exact(s[:j]), 1
 	}
 	j -= int64(pre)
 	if j < int64(sub) {
 		i, vi := int(j)/len(n.Values), int(j)%len(n.Values)
-		out = append([]byte(nil), s...)
+		out = exact(s)
 		v := n.Values[vi]
 		switch v {
 		case 256:
@@ -106,7 +106,7 @@ func (n *Neighbourhood) Variant(s []byte, j int64) (out []byte, dev int) {
 		k := int(j) % winVals
 		le := (int(j) / winVals) % 2
 		pos := (int(j) / (winVals * 2)) * 2
-		out = append([]byte(nil), s...)
+		out = exact(s)
 		v := uint16(winVal(k, len(s), 16))
 		if le == 1 {
 			binary.LittleEndian.PutUint16(out[pos:], v)
@@ -119,7 +119,7 @@ func (n *Neighbourhood) Variant(s []byte, j int64) (out []byte, dev int) {
 	if j < int64(w32) {
 		k := int(j) % winVals
 		pos := (int(j) / winVals) * 4
-		out = append([]byte(nil), s...)
+		out = exact(s)
 		binary.BigEndian.PutUint32(out[pos:], winVal(k, len(s), 32))
 		return out, 1
 	}
@@ -165,7 +165,7 @@ func Seedless(maxLen, fillMax int) [][]byte {
 	var rec func(prefix []byte, l int)
 	rec = func(prefix []byte, l int) {
 		if len(prefix) == l {
-			out = append(out, append([]byte(nil), prefix...))
+			out = append(out, exact(prefix))
 			return
 		}
 		for b := 0; b < 256; b++ {
@@ -186,3 +186,15 @@ func Seedless(maxLen, fillMax int) [][]byte {
 	}
 	return out
 }
+
+// exact copies b into a slice whose capacity equals its length, so a decoder
+// that slices beyond len(data) faults instead of silently reading whatever the
+// allocator left behind the input.
+func exact(b []byte) []byte {
+	o := make([]byte, len(b))
+	copy(o, b)
+	return o
+}
+
+// Exact is exact for other packages.
+func Exact(b []byte) []byte { return exact(b) }
